@@ -78,7 +78,8 @@ Definition nontrivial_of (c : case) : bool :=
   && (2 <=? Z.of_nat (length (flat_map fst (run_hist (c_env c) st (c_ops c))))).
 
 (* ---------- shapes of the known findings ----------
-     1  cgroup v2: the merge pass writes the literal "-1" to cpu.max
+     (1 is retired: the literal "-1" written to cpu.max by the merge pass on cgroup v2 is not a
+        violation of the property's text; finding_sig never returns 1)
      2  cgroup v2: cpu.max is rewritten although its quota is unchanged
      3  BE cpuset: a cgroup that already holds the target cpuset is rewritten (to old ∪ new and back) *)
 Fixpoint offenders3 (e : env) (fs0 fs : fmap) (us : list updater) (ws : list write) : list (write * bool) :=
@@ -91,10 +92,7 @@ Fixpoint offenders3 (e : env) (fs0 fs : fmap) (us : list updater) (ws : list wri
 
 Definition known_shape (e : env) (fs : fmap) (us : list updater) (ws : list write) (c : Z) : Z :=
   let off3 := map fst (offenders3 e fs fs us ws) in
-  let off5 := filter (fun w => negb (legal_write e w)) ws in
-  let all_q := forallb (fun w => on_q e (fst w)) off3 && forallb (fun w => on_q e (fst w) && (snd w =? -2)) off5 in
-  if negb all_q then 0
-  else if c =? 3 then 2 else if c =? 5 then 1 else 0.
+  if (c =? 3) && forallb (fun w => on_q e (fst w)) off3 then 2 else 0.
 
 Definition known_shape_be (e : env) (fs : fmap) (us : list updater) (ws : list write) (c : Z) : Z :=
   let off3 := offenders3 e fs fs us ws in
